@@ -330,9 +330,7 @@ func (m *Mutate) valuesToProto(ts *uint64) []*pb.MutationProto_ColumnValue {
 					dt = MutationProtoDeleteFamily
 				}
 				// add empty qualifier
-				if v == nil {
-					v = emptyQualifier
-				}
+				v = emptyQualifier
 			} else {
 				// delete specific qualifiers
 				if m.deleteOneVersion {
@@ -431,7 +429,7 @@ func (m *Mutate) valuesToCellblocks() ([]byte, int32, uint32) {
 	var cbsLen int
 	var count int
 	for family, v := range m.values {
-		if v == nil && m.mutationType == pb.MutationProto_DELETE {
+		if len(v) == 0 && m.mutationType == pb.MutationProto_DELETE {
 			// only a delete of a whole family is encoded as a cell with empty qualifier
 			v = emptyQualifier
 		}
@@ -460,9 +458,7 @@ func (m *Mutate) valuesToCellblocks() ([]byte, int32, uint32) {
 					mt = deleteFamilyType
 				}
 				// add empty qualifier
-				if v == nil {
-					v = emptyQualifier
-				}
+				v = emptyQualifier
 			} else {
 				// delete specific qualifiers
 				if m.deleteOneVersion {
